@@ -25,7 +25,8 @@ _BIN = {ast.Add: op.add, ast.Sub: op.sub, ast.Mult: op.mul, ast.FloorDiv: op.flo
         ast.BitXor: op.xor, ast.Div: op.truediv}
 _CMP = {ast.Eq: op.eq, ast.NotEq: op.ne, ast.Lt: op.lt, ast.LtE: op.le, ast.Gt: op.gt, ast.GtE: op.ge,
         ast.Is: op.is_, ast.IsNot: op.is_not, ast.In: lambda a, b: a in b, ast.NotIn: lambda a, b: a not in b}
-_CALLS = {"len": len, "abs": abs, "min": min, "max": max, "bool": bool, "int": int, "range": range,
+_METHODS = {"keys", "values", "items", "get", "index", "count"}
+_CALLS = {"reversed": lambda x: tuple(reversed(tuple(x))), "all": all, "any": any, "sum": sum, "frozenset": frozenset, "len": len, "abs": abs, "min": min, "max": max, "bool": bool, "int": int, "range": range,
           "set": set, "tuple": tuple, "sorted": sorted, "list": list}
 
 
@@ -95,6 +96,33 @@ def feval(node: ast.AST, env: Dict[str, Any]) -> Any:
         return _CALLS[node.func.id](*[feval(a, env) for a in node.args])
     if isinstance(node, ast.Call) and isinstance(node.func, ast.Name) and node.func.id in env and callable(env[node.func.id]):
         return env[node.func.id](*[feval(a, env) for a in node.args])
+    if isinstance(node, ast.Call) and not any(k.arg is None for k in node.keywords):
+        # whitelisted pure methods of plain containers, or a callable supplied by the rule through env
+        if isinstance(node.func, ast.Attribute) and node.func.attr in _METHODS:
+            recv = feval(node.func.value, env)
+            if isinstance(recv, (dict, list, tuple, set, frozenset, str, bytes, range)):
+                return getattr(recv, node.func.attr)(*[feval(a, env) for a in node.args])
+        try:
+            fn = feval(node.func, env)
+        except FevalError:
+            fn = None
+        if callable(fn) and getattr(fn, "_feval_ok", False):
+            return fn(*[feval(a, env) for a in node.args], **{k.arg: feval(k.value, env) for k in node.keywords})
+    if isinstance(node, (ast.ListComp, ast.SetComp, ast.GeneratorExp)) and len(node.generators) == 1 and isinstance(node.generators[0].target, (ast.Name, ast.Tuple)):
+        g = node.generators[0]
+        out = []
+        for item in feval(g.iter, env):
+            e2 = dict(env)
+            if isinstance(g.target, ast.Name):
+                e2[g.target.id] = item
+            else:
+                for t, v in zip(g.target.elts, item):
+                    if not isinstance(t, ast.Name):
+                        raise FevalError("nested target")
+                    e2[t.id] = v
+            if all(feval(c, e2) for c in g.ifs):
+                out.append(feval(node.elt, e2))
+        return frozenset(out) if isinstance(node, ast.SetComp) else tuple(out)
     raise FevalError(f"unsupported {type(node).__name__}: {ast.dump(node)[:80]}")
 
 
@@ -105,6 +133,12 @@ def _dotted(node):
         b = _dotted(node.value)
         return f"{b}.{node.attr}" if b else None
     return None
+
+
+def callable_for_feval(fn):
+    """Mark a python callable supplied by a rule as callable from evaluated expressions."""
+    fn._feval_ok = True
+    return fn
 
 
 def free_names(node: ast.AST):
